@@ -162,7 +162,12 @@ def _run_sequential(tape, out: Outcome) -> None:
                     op = op + ("dflt",)
             elif name in ("set", "setdefault"):
                 val += 1
-                op = (name, tape.pick(KEYS), val)
+                k_ = tape.pick(KEYS)
+                # one store in four writes back the very object the key already holds (a store is still a use)
+                same = tape.draw(4) == 0 and k_ in m.map
+                op = (name, k_, m.map[k_] if same else val)
+                if same:
+                    out.count("seq_store_of_identical_object")
             else:
                 op = (name,)
             before = len(m.map)
